@@ -72,3 +72,11 @@ pub fn std_mutex_lock<T: ?Sized>(m: &std::sync::Mutex<T>) -> std::sync::LockResu
 /// crate under verification): diagnostics are not observed, and `io::Write::write_fmt`'s adapter
 /// drags `io::Error` drop glue into every call site.
 pub fn io_print_noop(_args: std::fmt::Arguments<'_>) {}
+
+/// `core::fmt::write`: every `write!` / `format!` / `Display` / `Debug` rendering funnels through it and
+/// dispatches to the formatters through function pointers (`fmt::rt::Argument`), which a solver back
+/// end resolves to *every* formatter in the program (among them `TaskId`'s, which looks names up in a
+/// hash map). Rendered text is never observed by a property.
+pub fn fmt_write_noop(_out: &mut dyn std::fmt::Write, _args: std::fmt::Arguments<'_>) -> std::fmt::Result {
+    Ok(())
+}
